@@ -474,7 +474,26 @@ def post_eigvalsh(A, shear, result, OLD):
 
 
 def post_eigvals(a, shear, eigvals, result, OLD):
-    if eigvals is not np.linalg.eigvals or shear:
+    if eigvals is not np.linalg.eigvals:
+        return True
+    if shear:
+        # eigenvalues (in the solver's order) followed by their pairwise differences (1,0), (2,0), (2,1) resp. (1,0)
+        if not _numeric(a) or a.ndim < 3 or a.shape[0] != a.shape[1] or a.shape[0] not in (2, 3) or not _sampled("eigvals-shear", _sig(a)):
+            return True
+        n = a.shape[0]
+        res = np.asarray(result)
+        ij = {3: [(1, 0), (2, 0), (2, 1)], 2: [(1, 0)]}[n]
+        run = _state["run"]
+        if res.shape[0] != n + len(ij):
+            run.fail("math.eigvals", "routine=eigvals[shear=True] clause=shape", "eigvals(shear=True): %d rows for a %dx%d matrix" % (res.shape[0], n, n))
+            return True
+        ref = _eigvals_ref(OLD.a0, False, False)
+        got = np.sort_complex(np.moveaxis(res[:n], 0, -1))
+        run.compare("math.eigvals", "routine=eigvals[shear=True] clause=value", maxabs(got - np.sort_complex(np.moveaxis(ref, 0, -1))) / max(maxabs(OLD.a0), 1e-300), 1e-8,
+                    "eigvals(shear=True): leading rows are not the eigenvalues", unit="math:eigvals[shear=True]", config="eigvals-shear")
+        diff = np.array([res[i] - res[j] for i, j in ij])
+        run.compare("math.eigvals", "routine=eigvals[shear=True] clause=differences", maxabs(res[n:] - diff) / max(maxabs(OLD.a0), 1e-300), 1e-14,
+                    "eigvals(shear=True): trailing rows are not the pairwise differences of the eigenvalues", unit="math:eigvals[shear=True]")
         return True
     if not _numeric(a) or a.ndim < 2 or a.shape[0] != a.shape[1] or not _sampled("eigvals", _sig(a)):
         return True
